@@ -263,8 +263,11 @@ Next ==
           /\ cache' = [n \in ToSet(e.nodes) |-> InitFull.cache]
           /\ chain' = <<>> /\ approved' = {}
           /\ hist' = [n \in ToSet(e.nodes) |-> NoHist]
-     ELSE IF e.ev \in {"stable", "liveness_verdict", "specreplay_abort"}
+     ELSE IF e.ev \in {"stable", "liveness_verdict", "specreplay_abort", "wedged"}
      THEN /\ UNCHANGED <<hdr, obs, cache, chain, approved, hist>>
+          \* C12: a node given one input (a message, an election trigger, a sync) handles it and waits for the next; one that does
+          \* not come back (10 s on an input that takes microseconds) is wedged
+          /\ Chk(e.ev # "wedged", "c12_node_wedged")
           \* C05: after stabilisation some view led by a live correct member ends in commit within the bound of timer
           \* rounds, and every live member that accepted that view's proposal commits it
           /\ Chk(e.ev = "liveness_verdict" => e.committed, "c05_no_commit_after_stabilisation")
